@@ -88,6 +88,7 @@ def check(prog, rep, tier):
     rep.rule("C08.cbf-noop-exits", "remove returns without a store exactly when the minimum is 0 or at the limit", floor=1)
     rep.rule("C08.cc-weights", "a bin inserted for a key carries the caller's count; a kicked bin keeps its own fingerprint and count", floor=1)
     rep.rule("C08.cc-add-present", "add on a present key increments that key's bin (and nothing else)", floor=1)
+    rep.rule("C08.cc-check", "check reports the count of the one bin holding the key's fingerprint (each candidate bucket visited once), 0 when absent", floor=1)
     rep.rule("C08.cc-remove", "remove decrements, drops the bin exactly at zero, and says False without mutation when absent", floor=1)
     rep.assume("hash-strategy contract: len(hashes(key)) == number_hashes")
     # ---------------------------------------------------------------- counting Bloom addressing
@@ -207,6 +208,7 @@ def check(prog, rep, tier):
     # no-op exits
     okn = True
     exits = 0
+    by_amount = False
     for p in pr:
         if p.exit[0] != "return":
             continue
@@ -230,10 +232,21 @@ def check(prog, rep, tier):
                 rep.bad("C08.cbf-noop-exits", f"{CB}.remove_alt", f"no-op returns {nshow(rv)}", "the no-op exit does not report the unchanged count", fr.where(p.exit[2]))
                 okn = False
         elif stores:
-            if EQ in o0 or EQ in om:
+            # a store on a path that may have minimum 0 is still a no-op when the amount is min(num_els, minimum), which is 0 there
+            def zero_at_zero(e):
+                v = strip_epochs(e.value)
+                if not (v[0] == "bin" and v[1] == "-"):
+                    return False
+                return canon(v[3]) in (canon(("call", ("g", "min"), (m, num), ())), canon(("phi", ("cmp", ">", m, num), num, m)),
+                                       canon(("phi", ("cmp", ">=", m, num), num, m)))
+            if EQ in o0 and all(zero_at_zero(e) for e in stores):
+                by_amount = True
+            if (EQ in o0 and not all(zero_at_zero(e) for e in stores)) or EQ in om:
                 rep.bad("C08.cbf-noop-exits", f"{CB}.remove_alt", "stores with minimum at 0 or at the limit",
                         "cells are decremented on a path where the key's minimum may be 0 (absent) or at the limit (pinned)", stores[0].where())
                 okn = False
+    if okn and by_amount:
+        exits += 1  # the absent case is a no-op through its amount
     if okn and exits >= 2:
         rep.ok("C08.cbf-noop-exits", f"{CB}.remove_alt: {exits} no-op exits guarded by minimum == 0 / == limit")
     elif okn:
@@ -268,6 +281,24 @@ def check(prog, rep, tier):
                     oke = False
     if not oke and okw:
         rep.bad("C08.cc-weights", f"{CC}._expand_logic", "re-insert count", "expansion does not re-insert each bin with its own count", ex.where())
+    def first_holder(recv, p):
+        """recv is next(<bins of the bucket the look-up named> that hold the key's fingerprint): the found bin, written as a search"""
+        r = strip_epochs(recv)
+        if not (r[0] == "call" and r[1] == ("g", "next") and len(r[2]) == 1 and r[2][0][0] == "comp" and r[2][0][1] == "gen"):
+            return False
+        g = r[2][0]
+        if len(g[3]) != 1 or len(g[3][0][3]) != 1:
+            return False
+        elem, dom, flt = g[2], g[3][0][2], g[3][0][3][0]
+        if elem != ("it", g[3][0][1], dom) or not (dom[0] == "sub" and dom[1] == ("f", SELF, "_buckets", 0)):
+            return False
+        b = dom[2]
+        if not (b[0] == "ret" and b[1].endswith("._check_if_present") and len(b[3]) == 4):
+            return False
+        fp = b[3][3]
+        named = any((c.truth and strip_epochs(c.atom) == ("cmp", "isnot", b, C(None))) or (not c.truth and strip_epochs(c.atom) == ("cmp", "is", b, C(None))) for c in p.conds)
+        return named and flt in (("cmp", "in", fp, elem), ("cmp", "==", ("f", elem, "finger", 0), fp), ("cmp", "==", fp, ("f", elem, "finger", 0)))
+
     # add on a present key
     add = prog.method(CC, "add")
     oka, seen = True, False
@@ -281,7 +312,7 @@ def check(prog, rep, tier):
         if inc:
             seen = True
             # the bin that is incremented is the one found to hold the key's fingerprint
-            if not present or len(inc) != 1 or ins or pr[1] is None or strip_epochs(inc[0].recv) != pr[1]:
+            if not present or len(inc) != 1 or ins or not ((pr[1] is not None and strip_epochs(inc[0].recv) == pr[1]) or first_holder(inc[0].recv, p)):
                 rep.bad("C08.cc-add-present", f"{CC}.add", "increment", "a present key's add does not increment exactly the bin holding its fingerprint", inc[0].where())
                 oka = False
         if ins and not inc and pr is None:
@@ -295,6 +326,43 @@ def check(prog, rep, tier):
         rep.ok("C08.cc-add-present", f"{CC}.add: present -> bin.increment()")
     elif oka:
         rep.bad("C08.cc-add-present", f"{CC}.add", "no increment", "add never increments an existing bin", add.where())
+    # check: the count of the bin that holds the key's fingerprint, 0 when absent
+    ck = prog.method(CC, "check")
+    okc, nck = True, 0
+    for p in cpaths(prog, CC, ck):
+        if p.exit[0] != "return":
+            continue
+        rv = strip_epochs(p.exit[1])
+        if rv[0] == "call" and rv[1] == ("g", "sum") and len(rv[2]) == 1 and rv[2][0][0] == "comp":
+            g = rv[2][0]
+            gens = g[3]
+            doms = [strip_epochs(x[2]) for x in gens]
+            # sum(x.count for idx in <candidates> for x in buckets[idx] if fp in x): each bucket must be visited once, also when
+            # the two candidates are the same bucket
+            if len(gens) == 2 and doms[1][0] == "sub" and doms[1][1] == ("f", SELF, "_buckets", 0) and doms[1][2] == ("it", gens[0][1], doms[0]):
+                if doms[0][0] in ("tup", "lst") and len(doms[0][1]) == 2:
+                    rep.bad("C08.cc-check", f"{CC}.check", f"sum over {nshow(doms[0])}",
+                            "check adds up the counts over both candidate indices as a sequence: when the two candidates are the same bucket it is scanned twice "
+                            "and the key's count is reported doubled", ck.where(p.exit[2]))
+                    okc = False
+                elif doms[0][0] == "set" and len(doms[0][1]) == 2 and gens[1][3]:
+                    nck += 1
+            continue
+        pr = presence(p)
+        if pr is None or pr[0] == "infeasible":
+            continue
+        if pr[0] == "absent":
+            nck += 1
+            if rv != C(0):
+                rep.bad("C08.cc-check", f"{CC}.check", f"absent -> {nshow(rv)}", "check does not report 0 for a key whose fingerprint is in neither candidate bucket", ck.where(p.exit[2]))
+                okc = False
+        elif pr[0] == "present" and pr[1] is not None:
+            nck += 1
+            if rv not in (("f", pr[1], "count", 0), ("sub", ("f", pr[1], BINF, 0), C(1), 0)):
+                rep.bad("C08.cc-check", f"{CC}.check", f"present -> {nshow(rv)}", "check does not report the count of the bin that holds the key's fingerprint", ck.where(p.exit[2]))
+                okc = False
+    if okc and nck:
+        rep.ok("C08.cc-check", f"{CC}.check: the holding bin's count, 0 when absent ({nck} case(s))")
     # remove
     rm = prog.method(CC, "remove")
     okr, seen = True, False
@@ -313,7 +381,8 @@ def check(prog, rep, tier):
         if dec:
             seen = True
             found = pr[1] if pr is not None and pr[0] == "present" else None
-            if len(dec) != 1 or found is None or found != strip_epochs(dec[0].recv) or strip_epochs(p.exit[1]) != C(True):
+            okbin = (found is not None and found == strip_epochs(dec[0].recv)) or (pr is not None and pr[0] == "present" and first_holder(dec[0].recv, p))
+            if len(dec) != 1 or not okbin or strip_epochs(p.exit[1]) != C(True):
                 rep.bad("C08.cc-remove", f"{CC}.remove", "decrement", "remove does not decrement exactly the bin holding the key's fingerprint and report True", dec[0].where())
                 okr = False
     if okr and seen:
@@ -334,6 +403,9 @@ MUTANTS = [
     Mutant("remove_alt subtracts num_els regardless of the minimum", _CB, replace_stmt("CountingBloomFilter", "remove_alt", "to_remove = ", "to_remove = num_els"), rule="C08.cbf-symmetry"),
     Mutant("check_alt mod bloom_length - 1", _CB, replace_expr("CountingBloomFilter", "check_alt", "x % self.number_bits", "x % (self.number_bits - 1)"), rule="C08.cbf-address"),
     Mutant("_load_init: bloom_length = n_bits + 1", _CB, replace_stmt("CountingBloomFilter", "_load_init", "self._bloom_length = n_bits", "self._bloom_length = n_bits + 1"), rule="C08.cbf-length"),
+    Mutant("check reports count + 1", _CC, replace_stmt("CountingCuckooFilter", "check", "val = bucket.count", "val = bucket.count + 1"), rule="C08.cc-check"),
+    Mutant("check sums over the candidate tuple", _CC, replace_stmt("CountingCuckooFilter", "check", "is_present = ", "return sum(x.count for idx in (idx_1, idx_2) for x in self.buckets[idx] if fingerprint in x)"), rule="C08.cc-check"),
+    Mutant("check sums over the candidate set (same meaning)", _CC, replace_stmt("CountingCuckooFilter", "check", "is_present = ", "return sum(x.count for idx in {idx_1, idx_2} for x in self.buckets[idx] if fingerprint in x)"), expect="silent"),
     Mutant("add on a present key inserts a second bin", _CC, replace_stmt("CountingCuckooFilter", "add", "if is_present is not None", "pass"), rule="C08.cc-add"),
     Mutant("remove of an absent key decrements the counter", _CC, replace_stmt("CountingCuckooFilter", "remove", "if idx is None", "if idx is None:\n    self._inserted_elements -= 1\n    return False"), rule="C08.cc-remove"),
     Mutant("minimum taken with min(*generator)", _CB, replace_stmt("CountingBloomFilter", "remove_alt", "min_val = min(vals)", "min_val = min(*(self._bloom[k] for k in indices))"), rule="C08.cbf-symmetry"),
